@@ -221,7 +221,7 @@ fn recv_safe(rx: &Receiver<DebuggerEvent>) -> bool {
     }
     match latest_parser_task() {
         None => false,
-        Some(t) => !rt::task_finished(t) && !rt::task_parked_without_token(t),
+        Some(t) => !rt::task_finished(t) && !rt::task_owes_park_without_token(t),
     }
 }
 
@@ -459,6 +459,8 @@ pub fn execute(w: &Workload, spec: SchedSpec) -> WorldOutcome {
 pub struct Violation {
     /// violation class (stable across minimisation)
     pub class: String,
+    /// finer structural signature of the failing history (used to match known findings)
+    pub signature: String,
     pub detail: String,
     pub at_seq: Option<u64>,
 }
@@ -558,11 +560,14 @@ struct RunModel {
     pstate: PState,
     token: bool,
     loads_true: u64,
+    last_park_had_token: bool,
+    cap: usize,
 }
 
 fn viol(class: &str, detail: String, seq: Option<u64>) -> Violation {
     Violation {
         class: class.to_string(),
+        signature: String::new(),
         detail,
         at_seq: seq,
     }
@@ -577,6 +582,11 @@ pub fn check_history(
     probes: &mut Probes,
 ) -> Option<Violation> {
     let strict_pacing = w.spurious_permille == 0;
+    let caps: Vec<usize> = w
+        .script
+        .iter()
+        .filter_map(|c| if let Cmd::Run { cap, .. } = c { Some(*cap) } else { None })
+        .collect();
     let all_rules: Vec<String> = match pest_meta::parse_and_optimize(&w.grammar_text) {
         Ok((_, rules)) => rules.iter().map(|r| r.name.clone()).collect(),
         Err(_) => vec![],
@@ -657,6 +667,8 @@ pub fn check_history(
                             pstate: PState::Running,
                             token: false,
                             loads_true: 0,
+                            last_park_had_token: false,
+                            cap: caps.get(idx).copied().unwrap_or(1),
                         });
                     } else if let Some(res) = m.strip_prefix("run_return ") {
                         in_run_call = false;
@@ -934,6 +946,7 @@ pub fn check_history(
                 flag!(viol("harness", "parser thread saw a closed channel".into(), seq));
             }
             EvKind::ParkBegin { token } => {
+                r.last_park_had_token = *token;
                 if *token {
                     probes.token_before_park += 1;
                     r.token = false;
@@ -999,11 +1012,13 @@ pub fn check_history(
             if in_run_call && !precondition_ok {
                 None
             } else {
-                Some(viol(
+                let mut v = viol(
                     "deadlock",
                     deadlock_detail(&runs, in_run_call),
                     out.events.last().map(|e| e.seq),
-                ))
+                );
+                v.signature = deadlock_signature(&runs, in_run_call);
+                Some(v)
             }
         }
         Ending::StepBudget => Some(viol(
@@ -1012,6 +1027,35 @@ pub fn check_history(
             None,
         )),
     }
+}
+
+/// Structural signature of a deadlock, computed from the model state at the end of the history.
+fn deadlock_signature(runs: &[RunModel], in_run_call: bool) -> String {
+    if !in_run_call {
+        return "controller-waiting-for-event".into();
+    }
+    let n = runs.len();
+    if n < 2 {
+        return "run-join".into();
+    }
+    let old = &runs[n - 2];
+    let buffered = old.sent_total.saturating_sub(old.recvd_total);
+    if old.pstate == PState::Parked {
+        return "run-join/old-parser-parked".into();
+    }
+    // the old parser is blocked in a send on its full channel
+    if buffered as usize >= old.cap && old.loads_true == 0 && old.last_park_had_token {
+        // it never saw the stop flag and ran past its last breakpoint on a continue token that
+        // had been issued before that breakpoint was reported
+        return "run-join/old-parser-blocked-in-send/ran-past-breakpoint-on-stale-continue-token".into();
+    }
+    if buffered as usize >= old.cap {
+        return format!(
+            "run-join/old-parser-blocked-in-send/stop-flag-reads={}",
+            if old.loads_true > 0 { "some" } else { "none" }
+        );
+    }
+    "run-join/other".into()
 }
 
 fn deadlock_detail(runs: &[RunModel], in_run_call: bool) -> String {
